@@ -77,7 +77,7 @@ PROPS = {
              "interval sampled around the call, what arrives per call == one message (cut at its own length field) of exactly the byte count SendSet reported; nothing else at the peer at the end. "
              "One session in 16 is a UDP session with the 1 s template refresh running concurrently with 2.3 s of application sends (half of them "
              "starting just below 2^32): the rule is checked in capture order on every datagram, whoever sent it. "
-             "Non-trivial = a template between data messages, or the wrap crossed; distinct by hash of the (kind, record count) list. ALSO: One session in 16 has two goroutines sending on one exporting process against a peer that does not read for 2.2 s: the second goroutine's message must carry the second of its sending (not before the peer resumed), and sequence numbers hold in stream order.",
+             "Non-trivial = a template between data messages, or the wrap crossed; distinct by hash of the (kind, record count) list. ALSO: One session in 16 has two goroutines sending on one exporting process against a peer that does not read for 2.2 s: the second goroutine's message must carry the second of its sending (not before the peer resumed), and sequence numbers hold in stream order. ALSO: one session in 16 is a plain-UDP session whose peer socket is closed and bound again on the same port (a collector restart; the kernel reports ICMP port-unreachable on a later send): from the first failed SendSet on the session is outside the statement and only counted; while every call succeeds, each data message reaching the new peer must carry the record count of ALL successful calls.",
              COMMON_ASSUME + ["failed sends are outside C08's statement and are not generated here"],
              "runtime monitor: running-count model over headers parsed from bytes captured at a raw peer"),
     "C09": P(False, (8, 16), 16, (900, 3600), 300, 100, "exploration",
